@@ -465,7 +465,9 @@ func WohMutations(wh *types.WorkObjectHeader, loc common.Location) []WohMutation
 			aux("signature", func(a *types.AuxPow) { a.SetSignature(flipBytes(ap.Signature())) })
 			aux("transaction", func(a *types.AuxPow) { a.SetTransaction(flipBytes(ap.Transaction())) })
 			aux("auxPow2", func(a *types.AuxPow) { a.SetAuxPow2(flipBytes(ap.AuxPow2())) })
-			aux("merkleBranch/add", func(a *types.AuxPow) { a.SetMerkleBranch(append(append([][]byte{}, ap.MerkleBranch()...), make([]byte, 32))) })
+			aux("merkleBranch/add", func(a *types.AuxPow) {
+				a.SetMerkleBranch(append(append([][]byte{}, ap.MerkleBranch()...), make([]byte, 32)))
+			})
 			if len(ap.MerkleBranch()) > 0 {
 				aux("merkleBranch/0", func(a *types.AuxPow) {
 					mb := append([][]byte{}, ap.MerkleBranch()...)
